@@ -25,7 +25,7 @@
 From Coq Require Import List NArith ZArith Bool.
 From Coq Require String.
 Import String.StringSyntax.
-From Sccache Require Import Base.Sx Model.DistStatus Model.DistFallback Model.DistArgs Model.DistHistory Model.DistRustInputs Model.DistPaths.
+From Sccache Require Import Base.Sx Model.DistStatus Model.DistFallback Model.DistArgs Model.DistHistory Model.DistRustInputs Model.DistPaths Model.DistRoutes.
 Import ListNotations.
 Local Open Scope N_scope.
 Local Open Scope string_scope.
@@ -293,6 +293,31 @@ Definition run_rustdeps (x : sx) : sx :=
   | _ => err "bad rustdeps case"
   end.
 
+(* ---- leg aliases: ( ALIAS ... ) -> ( ( CLASS DT ( MATCH ) ) ... ); the weak key is the path as given ---- *)
+Definition run_aliases (x : sx) : sx :=
+  match x with
+  | SL reqs =>
+      SL (map (fun ok : bool =>
+                 if ok then SL [sym "miss"; sym "dist_ok"; SL [SN 1]]
+                 else SL [sym "compile_failed"; sym "dist_ok"; SL [SN 0]])
+              (tk_run (fun a => a) {| tk_map := [] |} (map (fun a => N.min (get_N a) 3) reqs)))
+  | _ => err "bad aliases case"
+  end.
+
+(* ---- leg routes: ( ROUTE KIND CODE LOCAL ): a stage of a client-facing route fails with that status ---- *)
+Definition run_routes (x : sx) : sx :=
+  match x with
+  | SL [r; _; code; lc] =>
+      let c := class_of_status (get_N code) in
+      let s := {| s_gen := true; s_dist := true; s_prep := None; s_put := None;
+                  s_alloc := if is_sym "alloc_job" r then AllocErr c else AllocOk true;
+                  s_submit := if is_sym "submit_toolchain" r then SubErr c else SubOk;
+                  s_run := if is_sym "run_job" r then RunErr c else RunComplete 0%Z [(0, WOk)];
+                  s_rewrite := None; s_local := dec_local lc |} in
+      enc_result (dist_or_local true s [])
+  | _ => err "bad routes case"
+  end.
+
 (* ---- leg args ---- *)
 Definition dec_lang (x : sx) : option language :=
   if is_sym "C" x then Some LC else if is_sym "Cxx" x then Some LCxx
@@ -342,6 +367,8 @@ Definition dispatch (leg : list N) (x : sx) : sx :=
   else if bytes_eqb leg (bs "toolchain") then run_toolchain x
   else if bytes_eqb leg (bs "rustinputs") then run_rustinputs x
   else if bytes_eqb leg (bs "simplify") then run_simplify x
+  else if bytes_eqb leg (bs "aliases") then run_aliases x
+  else if bytes_eqb leg (bs "routes") then run_routes x
   else if bytes_eqb leg (bs "rustdeps") then run_rustdeps x
   else if bytes_eqb leg (bs "args") then run_args true x
   else if bytes_eqb leg (bs "args_orig") then run_args false x
